@@ -18,10 +18,6 @@ Proof. intros H. unfold wadd64. rewrite N.add_0_r. apply N.mod_small. exact H. Q
 Lemma wadd64_lt a d : wadd64 a d < U64.
 Proof. apply N.mod_lt. discriminate. Qed.
 
-Definition same_but_pos (b b' : bar) : Prop :=
-  b_len b' = b_len b /\ b_status b' = b_status b /\ b_msg b' = b_msg b
-  /\ b_on_finish b' = b_on_finish b.
-
 Lemma same_but_pos_refl b : same_but_pos b b.
 Proof. repeat split. Qed.
 
@@ -38,11 +34,6 @@ Lemma bar_set_position_same b p : same_but_pos b (bar_set_position b p).
 Proof. repeat split. Qed.
 
 (** finishing *)
-Definition finish_sets_pos (f : finish) : bool :=
-  match f with AndLeave | WithMessage _ | AndClear => true | _ => false end.
-Definition finish_message (f : finish) : option (list N) :=
-  match f with WithMessage m | AbandonWithMessage m => Some m | _ => None end.
-
 Lemma bar_finish_spec b f :
   let b' := bar_finish b f in
   bar_is_finished b' = true
@@ -59,16 +50,27 @@ Qed.
 
 (* ------------------------------------------------------------------ *)
 (** * One call: the adaptor = the bare call + the specified effect on the bar *)
+
+Lemma hint_is_default_true h : hint_is_default h = true -> h = (0, None).
+Proof.
+  destruct h as [a [u|]]; destruct a; cbn; intros H; try discriminate; reflexivity.
+Qed.
+
 Section WrapperProofs.
   Variables S E Item Data : Type.
   Variable I : inner S E Item Data.
+  Variable V : variant.
+  Variable B : buffers Data.
 
   Local Notation bare_step := (bare_step S E Item Data I).
-  Local Notation wrap_step := (wrap_step S E Item Data I).
+  Local Notation wrap_step := (wrap_step S E Item Data I V B).
   Local Notation run_bare := (run_bare S E Item Data I).
-  Local Notation run_wrap := (run_wrap S E Item Data I).
+  Local Notation run_wrap := (run_wrap S E Item Data I V B).
   Local Notation call := (call Data).
   Local Notation ret := (ret E Item Data).
+  Local Notation known_dev := (known_dev E Item Data V).
+  Local Notation effect_of := (effect_of E Item Data).
+  Local Notation meets_spec := (meets_spec S E Item Data I V B).
 
   Ltac dinner :=
     match goal with
@@ -85,6 +87,7 @@ Section WrapperProofs.
     | |- context [i_write_vectored I ?a ?b] => destruct (i_write_vectored I a b)
     | |- context [i_flush I ?a] => destruct (i_flush I a)
     | |- context [i_poll_write I ?a ?b] => destruct (i_poll_write I a b)
+    | |- context [i_poll_write_vectored I ?a ?b] => destruct (i_poll_write_vectored I a b)
     | |- context [i_poll_flush I ?a] => destruct (i_poll_flush I a)
     | |- context [i_poll_shutdown I ?a] => destruct (i_poll_shutdown I a)
     | |- context [i_poll_read I ?a ?b ?c] => destruct (i_poll_read I a b c)
@@ -94,93 +97,201 @@ Section WrapperProofs.
     | |- context [i_poll_next I ?a] => destruct (i_poll_next I a)
     end.
 
+  Ltac dvars :=
+    repeat match goal with
+           | |- context [match ?x with _ => _ end] => is_var x; destruct x
+           end.
+
+  Ltac unfold_w :=
+    unfold w_next, w_next_back, w_size_hint, w_len, w_read, w_read_vectored,
+      w_read_to_string, w_read_exact, w_fill_buf, w_consume, w_seek, w_stream_position,
+      w_write, w_write_vectored, w_flush, w_poll_write, w_poll_flush, w_poll_shutdown,
+      w_poll_read, w_start_seek, w_poll_complete, w_poll_fill_buf, w_aconsume, w_poll_next,
+      w_stream_size_hint, w_poll_write_vectored, w_is_write_vectored.
+
+  (** MASTER THEOREM (every variant of the code): outside the known classes of that variant, a
+      call on the adaptor meets the property *)
   Theorem step_spec (s : S) (b : bar) (c : call) :
-    wrap_step (s, b) c =
-      (let '(s', r) := bare_step s c in
-       if readbuf_ok E Item Data c r
-       then Ok ((s', apply_effect b (effect_of E Item Data c r)),
-                if not_forwarded Data c then RHint (0, None) else r)
-       else Panic 1).
+    known_dev b c (snd (bare_step s c)) = false -> meets_spec s b c.
   Proof.
-    destruct c; cbn [bare_step wrap_step Adaptors.bare_step Adaptors.wrap_step readbuf_ok not_forwarded].
-    all: unfold w_next, w_next_back, w_size_hint, w_len, w_read, w_read_vectored,
-           w_read_to_string, w_read_exact, w_fill_buf, w_consume, w_seek, w_stream_position,
-           w_write, w_write_vectored, w_flush, w_poll_write, w_poll_flush, w_poll_shutdown,
-           w_poll_read, w_start_seek, w_poll_complete, w_poll_fill_buf, w_aconsume, w_poll_next,
-           w_stream_size_hint.
-    all: cbn [fst snd].
-    all: try dinner.
-    all: repeat match goal with
-         | |- context [match ?x with _ => _ end] => is_var x; destruct x
-         end; cbn [effect_of apply_effect readbuf_ok fst snd negb]; try reflexivity.
+    unfold meets_spec, Adaptors.meets_spec.
+    destruct c; cbn [bare_step wrap_step Adaptors.bare_step Adaptors.wrap_step].
+    all: unfold_w; cbn [fst snd].
+    (* the five calls whose transcription depends on the variant *)
+    17: { (* poll_write_vectored *)
+      destruct (v_async_write_vectored V) eqn:Hv.
+      - dinner. cbn [snd]. intros _. dvars; reflexivity.
+      - dinner. cbn [snd Adaptors.known_dev]. rewrite Hv. discriminate. }
+    17: { (* is_write_vectored *)
+      cbn [snd Adaptors.known_dev Adaptors.effect_of Adaptors.apply_effect].
+      destruct (v_async_write_vectored V); cbn [negb andb].
+      - intros _. reflexivity.
+      - intros H. rewrite H. reflexivity. }
+    19: { (* poll_read *)
+      dinner. destruct p as [[d f'] r]. cbn [snd].
+      destruct r as [x|]; cbn [Adaptors.known_dev Adaptors.effect_of Adaptors.apply_effect].
+      - intros H. rewrite H. reflexivity.
+      - intros _. reflexivity. }
+    23: { (* poll_next *)
+      dinner. cbn [snd]. destruct p as [[x|]|];
+        cbn [Adaptors.known_dev Adaptors.effect_of Adaptors.apply_effect]; try (intros _; reflexivity).
+      destruct (v_stream_end_guard V), (bar_is_finished b); cbn [negb andb];
+        intros H; try discriminate; reflexivity. }
+    23: { (* Stream::size_hint *)
+      cbn [snd Adaptors.known_dev Adaptors.effect_of Adaptors.apply_effect].
+      destruct (v_stream_size_hint V); cbn [negb andb].
+      - intros _. reflexivity.
+      - intros H. apply negb_false_iff in H. apply hint_is_default_true in H.
+        rewrite H. reflexivity. }
+    (* the calls that are the same in every variant *)
+    all: try dinner; cbn [snd]; intros _.
+    all: dvars; cbn [Adaptors.effect_of Adaptors.apply_effect fst snd negb]; try reflexivity.
     - destruct (bar_is_finished b); reflexivity.
     - destruct (bar_is_finished b); reflexivity.
-    - match goal with |- context [?x <? ?y] =>
-        destruct (N.ltb_spec x y) as [Hlt|Hge]; destruct (N.leb_spec y x) as [Hle|Hgt];
-        try lia; reflexivity end.
   Qed.
 
   (** Corollaries of [step_spec] in the shape of the property text. *)
 
   (** transparency: result and inner state are those of the bare call *)
   Theorem step_transparent s b c w' r :
-    not_forwarded Data c = false ->
+    known_dev b c (snd (bare_step s c)) = false ->
     wrap_step (s, b) c = Ok (w', r) ->
     (fst w', r) = bare_step s c.
   Proof.
-    intros Hnf H. rewrite step_spec in H. destruct (bare_step s c) as [s' r0].
-    rewrite Hnf in H. destruct (readbuf_ok E Item Data c r0); [|discriminate].
+    intros Hd H. rewrite (step_spec s b c Hd) in H. destruct (bare_step s c) as [s' r0].
     inversion H; subst. reflexivity.
-  Qed.
-
-  (** the adaptor panics in exactly one situation: the inner AsyncRead shrank ReadBuf::filled *)
-  Theorem step_panics_iff s b c :
-    (exists site, wrap_step (s, b) c = Panic site) <->
-    (exists f cap d f' x, c = CPollRead f cap /\
-       snd (bare_step s c) = RPollRead d f' (Ready x) /\ f' < f).
-  Proof.
-    rewrite step_spec. destruct (bare_step s c) as [s' r] eqn:Hb. cbn [snd]. split.
-    - intros [site H]. destruct (readbuf_ok E Item Data c r) eqn:Hr; [discriminate|].
-      destruct c; cbn [readbuf_ok] in Hr; try discriminate.
-      destruct r; try discriminate. destruct r; try discriminate.
-      apply N.leb_gt in Hr. do 5 eexists. split; [reflexivity|]. split; [reflexivity | exact Hr].
-    - intros (f & cap & d & f' & x & Hc & Hr & Hlt). subst c r.
-      exists 1. cbn [readbuf_ok]. apply N.leb_gt in Hlt. rewrite Hlt. reflexivity.
   Qed.
 
   (** counting: the bar after the call is the bar before + the effect the property prescribes
       for what the BARE call returned *)
   Theorem step_counts s b c w' r :
+    known_dev b c (snd (bare_step s c)) = false ->
     wrap_step (s, b) c = Ok (w', r) ->
-    snd w' = apply_effect b (effect_of E Item Data c (snd (bare_step s c))).
+    snd w' = apply_effect b (effect_of c (snd (bare_step s c))).
   Proof.
-    intros H. rewrite step_spec in H. destruct (bare_step s c) as [s' r0]. cbn [snd].
-    destruct (readbuf_ok E Item Data c r0); [|discriminate].
+    intros Hd H. rewrite (step_spec s b c Hd) in H. destruct (bare_step s c) as [s' r0]. cbn [snd].
     inversion H; subst. reflexivity.
   Qed.
 
-  (** the shapes of [effect_of] on the results a bare call can produce *)
-  Definition ret_is_err (r : ret) : bool :=
-    match r with
-    | RCount _ (IoErr _) | RExact _ (IoErr _) | RSlice (IoErr _) | RNum (IoErr _)
-    | RDone (IoErr _) | RPollNum (Ready (IoErr _)) | RPollDone (Ready (IoErr _))
-    | RPollSlice (Ready (IoErr _)) => true
-    | _ => false
-    end.
-  Definition ret_is_pending (r : ret) : bool :=
-    match r with
-    | RPollNum Pending | RPollDone Pending | RPollRead _ _ Pending | RPollSlice Pending
-    | RPollItem Pending => true
-    | _ => false
+  (** the adaptor adds a panic in exactly one situation: the saturating patch is absent and the
+      inner AsyncRead shrank ReadBuf::filled *)
+  Theorem step_panics_iff s b c :
+    (exists site, wrap_step (s, b) c = Panic site) <->
+    (v_poll_read_saturating V = false /\
+     exists f cap d f' x, c = CPollRead f cap /\
+       snd (bare_step s c) = RPollRead d f' (Ready x) /\ f' < f).
+  Proof.
+    split.
+    - intros [site H].
+      destruct (known_dev b c (snd (bare_step s c))) eqn:Hd.
+      + destruct c; cbn [bare_step Adaptors.bare_step] in *;
+          try (exfalso; revert H; cbn [wrap_step Adaptors.wrap_step]; unfold_w;
+               repeat match goal with
+                      | |- context [let '(_, _) := ?x in _] => destruct x
+                      | |- context [match ?x with _ => _ end] => destruct x
+                      end; discriminate).
+        revert Hd H. cbn [wrap_step Adaptors.wrap_step]. unfold_w.
+        destruct (i_poll_read I s filled cap) as [s' [[d f'] r]]. cbn [snd].
+        destruct r as [x|]; cbn [Adaptors.known_dev]; [|discriminate].
+        intros Hd _. apply andb_prop in Hd. destruct Hd as [Hs Hlt].
+        apply negb_true_iff in Hs. apply N.ltb_lt in Hlt.
+        split; [exact Hs|]. exists filled, cap, d, f', x. repeat split. exact Hlt.
+      + rewrite (step_spec s b c Hd) in H. destruct (bare_step s c). discriminate.
+    - intros (Hs & f & cap & d & f' & x & Hc & Hr & Hlt). subst c.
+      revert Hr. cbn [bare_step wrap_step Adaptors.bare_step Adaptors.wrap_step]. unfold_w.
+      destruct (i_poll_read I s f cap) as [s' [[d0 f0] r0]]. cbn [snd].
+      intros Hr. inversion Hr; subst. rewrite Hs. apply N.ltb_lt in Hlt. rewrite Hlt.
+      exists 1. reflexivity.
+  Qed.
+
+  (** ** Whole callers: any adaptive program over the calls *)
+  Local Notation prog := (prog E Item Data).
+  Local Notation trace_ok := (trace_ok E Item Data V).
+  Local Notation bar_after := (bar_after E Item Data).
+
+  Theorem prog_spec (p : prog) : forall s b,
+    trace_ok b (snd (run_bare p s)) = true ->
+    run_wrap p (s, b) =
+      Ok ((fst (run_bare p s), bar_after b (snd (run_bare p s))), snd (run_bare p s)).
+  Proof.
+    induction p as [|c k IH]; intros s b Hok.
+    - reflexivity.
+    - cbn [run_bare run_wrap Adaptors.run_bare Adaptors.run_wrap] in *.
+      pose proof (step_spec s b c) as Hstep. unfold meets_spec, Adaptors.meets_spec in Hstep.
+      destruct (bare_step s c) as [s1 r].
+      destruct (run_bare (k r) s1) as [s2 t] eqn:Hrun.
+      cbn [fst snd] in *. cbn [Adaptors.trace_ok] in Hok.
+      apply andb_prop in Hok. destruct Hok as [Hhd Htl].
+      apply negb_true_iff in Hhd. rewrite (Hstep Hhd).
+      specialize (IH r s1 (apply_effect b (effect_of c r))).
+      rewrite Hrun in IH. cbn [fst snd] in IH. rewrite (IH Htl).
+      reflexivity.
+  Qed.
+
+  (** ** Exhaustion *)
+  (** Iterator::next / next_back: None from an unfinished bar runs finish_using_style once;
+      None on a finished bar changes nothing. *)
+  Theorem next_none_finishes (s : S) (b : bar) (s' : S) (back : bool) :
+    (if back then i_next_back I s else i_next I s) = (s', None) ->
+    let w' := fst (if back then w_next_back S E Item Data I (s, b) else w_next S E Item Data I (s, b)) in
+    fst w' = s' /\
+    snd w' = (if bar_is_finished b then b else bar_finish_using_style b) /\
+    bar_is_finished (snd w') = true.
+  Proof.
+    intros H. destruct back; unfold w_next, w_next_back; rewrite H; cbn [fst snd].
+    all: destruct (bar_is_finished b) eqn:Hf; cbn [negb]; repeat split; try assumption.
+    all: apply (bar_finish_spec b (b_on_finish b)).
+  Qed.
+
+  (** Stream::poll_next, transcription for every variant: Ready(None) runs finish_using_style
+      unless the guard patch is present and the bar is already finished *)
+  Theorem poll_next_none s b s' :
+    i_poll_next I s = (s', Ready None) ->
+    w_poll_next S E Item Data I V (s, b) =
+      ((s', if v_stream_end_guard V && bar_is_finished b then b else bar_finish_using_style b),
+       Ready None).
+  Proof. intros H. unfold w_poll_next. rewrite H. reflexivity. Qed.
+
+End WrapperProofs.
+
+(** ** The spec itself: shapes of [effect_of] (statements about the SPECIFICATION, not the code) *)
+Section SpecShape.
+  Variables S E Item Data : Type.
+  Variable I : inner S E Item Data.
+  Local Notation bare_step := (bare_step S E Item Data I).
+
+  Ltac dinner2 :=
+    match goal with
+    | |- context [i_next I ?a] => destruct (i_next I a)
+    | |- context [i_next_back I ?a] => destruct (i_next_back I a)
+    | |- context [i_read I ?a ?b] => destruct (i_read I a b)
+    | |- context [i_read_vectored I ?a ?b] => destruct (i_read_vectored I a b)
+    | |- context [i_read_to_string I ?a] => destruct (i_read_to_string I a)
+    | |- context [i_read_exact I ?a ?b] => destruct (i_read_exact I a b)
+    | |- context [i_fill_buf I ?a] => destruct (i_fill_buf I a)
+    | |- context [i_seek I ?a ?b] => destruct (i_seek I a b)
+    | |- context [i_stream_position I ?a] => destruct (i_stream_position I a)
+    | |- context [i_write I ?a ?b] => destruct (i_write I a b)
+    | |- context [i_write_vectored I ?a ?b] => destruct (i_write_vectored I a b)
+    | |- context [i_flush I ?a] => destruct (i_flush I a)
+    | |- context [i_poll_write I ?a ?b] => destruct (i_poll_write I a b)
+    | |- context [i_poll_write_vectored I ?a ?b] => destruct (i_poll_write_vectored I a b)
+    | |- context [i_poll_flush I ?a] => destruct (i_poll_flush I a)
+    | |- context [i_poll_shutdown I ?a] => destruct (i_poll_shutdown I a)
+    | |- context [i_poll_read I ?a ?b ?c] => destruct (i_poll_read I a b c)
+    | |- context [i_start_seek I ?a ?b] => destruct (i_start_seek I a b)
+    | |- context [i_poll_complete I ?a] => destruct (i_poll_complete I a)
+    | |- context [i_poll_fill_buf I ?a] => destruct (i_poll_fill_buf I a)
+    | |- context [i_poll_next I ?a] => destruct (i_poll_next I a)
     end.
 
-  (** Err => nothing is counted (read_exact included, whatever it transferred before failing;
-      the one exception, poll_read, is not in [ret_is_err]: see [poll_read_counts]) *)
+  (** Err => the spec prescribes nothing (read_exact included: interpretation I1; the one
+      exception, poll_read, is not in [ret_is_err]: see [poll_read_counts]) *)
   Theorem err_counts_nothing s c :
-    ret_is_err (snd (bare_step s c)) = true ->
+    ret_is_err E Item Data (snd (bare_step s c)) = true ->
     effect_of E Item Data c (snd (bare_step s c)) = ENothing.
   Proof.
-    destruct c; cbn [bare_step Adaptors.bare_step]; try dinner;
+    destruct c; cbn [bare_step Adaptors.bare_step]; try dinner2;
       repeat (cbn [snd ret_is_err effect_of];
               match goal with
               | |- context [match ?x with _ => _ end] => is_var x; destruct x
@@ -188,12 +299,12 @@ Section WrapperProofs.
       cbn [snd ret_is_err effect_of]; intros H; try discriminate; reflexivity.
   Qed.
 
-  (** Pending => nothing is counted *)
+  (** Pending => the spec prescribes nothing (poll_read included: interpretation I2) *)
   Theorem pending_counts_nothing s c :
-    ret_is_pending (snd (bare_step s c)) = true ->
+    ret_is_pending E Item Data (snd (bare_step s c)) = true ->
     effect_of E Item Data c (snd (bare_step s c)) = ENothing.
   Proof.
-    destruct c; cbn [bare_step Adaptors.bare_step]; try dinner;
+    destruct c; cbn [bare_step Adaptors.bare_step]; try dinner2;
       repeat (cbn [snd ret_is_pending effect_of];
               match goal with
               | |- context [match ?x with _ => _ end] => is_var x; destruct x
@@ -201,47 +312,25 @@ Section WrapperProofs.
       cbn [snd ret_is_pending effect_of]; intros H; try discriminate; reflexivity.
   Qed.
 
-  (** poll_read counts the growth of the filled region on every Ready, Ok or Err *)
+  (** poll_read: the spec counts the growth of the filled region on every Ready, Ok or Err *)
   Theorem poll_read_counts s f cap s' d f' x :
-    i_poll_read I s f cap = (s', (d, f', Ready x)) -> f <= f' ->
+    i_poll_read I s f cap = (s', (d, f', Ready x)) ->
     effect_of E Item Data (CPollRead f cap) (snd (bare_step s (CPollRead f cap))) = EAdd (f' - f).
   Proof.
-    intros H _. cbn [bare_step Adaptors.bare_step]. rewrite H. reflexivity.
+    intros H. cbn [bare_step Adaptors.bare_step]. rewrite H. reflexivity.
   Qed.
+End SpecShape.
 
-  (** ** Whole callers: any adaptive program over the calls *)
-  Local Notation prog := (prog E Item Data).
-  Local Notation trace_ok := (trace_ok E Item Data).
+(** ** Closed forms over a trace of prescribed effects *)
+Section Traces.
+  Variables E Item Data : Type.
   Local Notation bar_after := (bar_after E Item Data).
-
-  Theorem prog_spec (p : prog) : forall s b,
-    trace_ok (snd (run_bare p s)) = true ->
-    run_wrap p (s, b) =
-      Ok ((fst (run_bare p s), bar_after b (snd (run_bare p s))), snd (run_bare p s)).
-  Proof.
-    induction p as [|c k IH]; intros s b Hok.
-    - reflexivity.
-    - cbn [run_bare run_wrap Adaptors.run_bare Adaptors.run_wrap] in *.
-      rewrite step_spec. destruct (bare_step s c) as [s1 r].
-      destruct (run_bare (k r) s1) as [s2 t] eqn:Hrun.
-      cbn [fst snd] in *. unfold trace_ok in Hok. cbn [forallb fst snd] in Hok.
-      apply andb_prop in Hok. destruct Hok as [Hhd Htl].
-      apply andb_prop in Hhd. destruct Hhd as [Hnf Hrb].
-      apply negb_true_iff in Hnf. rewrite Hrb, Hnf.
-      specialize (IH r s1 (apply_effect b (effect_of E Item Data c r))).
-      rewrite Hrun in IH. cbn [fst snd] in IH. rewrite (IH Htl).
-      reflexivity.
-  Qed.
+  Local Notation eff := (eff E Item Data).
+  Local Notation adds_only := (adds_only E Item Data).
+  Local Notation moved := (moved E Item Data).
 
   Lemma bar_after_app b t1 t2 : bar_after b (t1 ++ t2) = bar_after (bar_after b t1) t2.
   Proof. unfold bar_after, Adaptors.bar_after. apply fold_left_app. Qed.
-
-  (** closed form of the position over a trace that only transfers (no seek, no end) *)
-  Definition eff (cr : call * ret) : effect := effect_of E Item Data (fst cr) (snd cr).
-  Definition adds_only (t : list (call * ret)) : bool :=
-    forallb (fun cr => match eff cr with EAdd _ | ENothing => true | _ => false end) t.
-  Definition moved (t : list (call * ret)) : N :=
-    fold_right (fun cr a => match eff cr with EAdd n => n + a | _ => a end) 0 t.
 
   Theorem bar_after_adds t : forall b,
     adds_only t = true -> b_pos b < U64 ->
@@ -249,10 +338,10 @@ Section WrapperProofs.
   Proof.
     induction t as [|cr t IH]; intros b Ha Hb.
     - cbn. rewrite N.add_0_r, N.mod_small by exact Hb. split; [reflexivity|apply same_but_pos_refl].
-    - cbn [adds_only forallb] in Ha. apply andb_prop in Ha. destruct Ha as [Hh Ht].
-      unfold bar_after, Adaptors.bar_after in *. cbn [fold_left moved fold_right].
+    - cbn [adds_only Adaptors.adds_only forallb] in Ha. apply andb_prop in Ha. destruct Ha as [Hh Ht].
+      unfold bar_after, Adaptors.bar_after in *. cbn [fold_left moved Adaptors.moved fold_right].
       fold (eff cr). fold (moved t).
-      destruct (eff cr) as [n| | | |] eqn:He; try discriminate; cbn [apply_effect].
+      destruct (eff cr) as [n| | |] eqn:He; try discriminate; cbn [apply_effect].
       + destruct (IH (bar_inc b n) Ht (wadd64_lt _ _)) as [Hp Hs]. split.
         * rewrite Hp. cbn [bar_inc b_pos]. unfold wadd64.
           rewrite N.add_mod_idemp_l by discriminate. f_equal. lia.
@@ -273,29 +362,153 @@ Section WrapperProofs.
     destruct (bar_after_adds t2 (bar_after b1 [cr]) Ha) as [H _]; [rewrite Hb2; exact Hp|].
     rewrite H, Hb2. reflexivity.
   Qed.
+End Traces.
 
-  (** ** Exhaustion *)
-  (** Iterator::next / next_back: None from an unfinished bar runs finish_using_style once;
-      None on a finished bar changes nothing. *)
-  Theorem next_none_finishes (s : S) (b : bar) (s' : S) (back : bool) :
-    (if back then i_next_back I s else i_next I s) = (s', None) ->
-    let w' := fst (if back then w_next_back S E Item Data I (s, b) else w_next S E Item Data I (s, b)) in
-    fst w' = s' /\
-    snd w' = (if bar_is_finished b then b else bar_finish_using_style b) /\
-    bar_is_finished (snd w') = true.
+(* ------------------------------------------------------------------ *)
+(** * The patched tree: the property holds for EVERY call, no class excluded *)
+Section Patched.
+  Variables S E Item Data : Type.
+  Variable I : inner S E Item Data.
+  Variable B : buffers Data.
+
+  Lemma patched_no_dev b (c : call Data) (r : ret E Item Data) :
+    known_dev E Item Data patched_code b c r = false.
   Proof.
-    intros H. destruct back; unfold w_next, w_next_back; rewrite H; cbn [fst snd].
-    all: destruct (bar_is_finished b) eqn:Hf; cbn [negb]; repeat split; try assumption.
-    all: apply (bar_finish_spec b (b_on_finish b)).
+    destruct c, r; cbn [known_dev]; try reflexivity;
+      repeat (match goal with
+              | |- context [match ?x with _ => _ end] => is_var x; destruct x
+              end; cbn [known_dev]); reflexivity.
   Qed.
 
-  (** Stream::poll_next: Ready(None) ALWAYS runs finish_using_style (no is_finished test) *)
-  Theorem poll_next_none_finishes s b s' :
-    i_poll_next I s = (s', Ready None) ->
-    w_poll_next S E Item Data I (s, b) = ((s', bar_finish_using_style b), Ready None).
-  Proof. intros H. unfold w_poll_next. rewrite H. reflexivity. Qed.
+  Lemma patched_trace_ok t : forall b, trace_ok E Item Data patched_code b t = true.
+  Proof.
+    induction t as [|[c r] t IH]; intros b; [reflexivity|].
+    cbn [trace_ok]. rewrite patched_no_dev, IH. reflexivity.
+  Qed.
 
-End WrapperProofs.
+  Theorem step_spec_patched s b c : meets_spec S E Item Data I patched_code B s b c.
+  Proof. apply step_spec. apply patched_no_dev. Qed.
+
+  Theorem step_transparent_patched s b c w' r :
+    wrap_step S E Item Data I patched_code B (s, b) c = Ok (w', r) ->
+    (fst w', r) = bare_step S E Item Data I s c.
+  Proof. apply step_transparent. apply patched_no_dev. Qed.
+
+  Theorem step_counts_patched s b c w' r :
+    wrap_step S E Item Data I patched_code B (s, b) c = Ok (w', r) ->
+    snd w' = apply_effect b (effect_of E Item Data c (snd (bare_step S E Item Data I s c))).
+  Proof. apply step_counts. apply patched_no_dev. Qed.
+
+  Theorem never_panics_patched s b c :
+    ~ exists site, wrap_step S E Item Data I patched_code B (s, b) c = Panic site.
+  Proof.
+    intros [site H]. pose proof (step_spec_patched s b c) as Hs.
+    unfold meets_spec in Hs. rewrite Hs in H.
+    destruct (bare_step S E Item Data I s c). discriminate.
+  Qed.
+
+  Theorem prog_spec_patched (p : prog E Item Data) s b :
+    run_wrap S E Item Data I patched_code B p (s, b) =
+      Ok ((fst (run_bare S E Item Data I p s),
+           bar_after E Item Data b (snd (run_bare S E Item Data I p s))),
+          snd (run_bare S E Item Data I p s)).
+  Proof. apply prog_spec. apply patched_trace_ok. Qed.
+
+  (** streams end like iterators *)
+  Theorem poll_next_none_patched s b s' :
+    i_poll_next I s = (s', Ready None) ->
+    w_poll_next S E Item Data I patched_code (s, b) =
+      ((s', if bar_is_finished b then b else bar_finish_using_style b), Ready None).
+  Proof. intros H. rewrite (poll_next_none _ _ _ _ _ _ _ _ _ H). reflexivity. Qed.
+End Patched.
+
+(* ------------------------------------------------------------------ *)
+(** * The current tree: transcription lemmas for the four deviating calls, and refutations *)
+Section Current.
+  Variables S E Item Data : Type.
+  Variable I : inner S E Item Data.
+  Variable B : buffers Data.
+
+  (** Stream::poll_next at HEAD: Ready(None) ALWAYS runs finish_using_style (no is_finished test) *)
+  Theorem poll_next_none_current s b s' :
+    i_poll_next I s = (s', Ready None) ->
+    w_poll_next S E Item Data I current_code (s, b) = ((s', bar_finish_using_style b), Ready None).
+  Proof. intros H. rewrite (poll_next_none _ _ _ _ _ _ _ _ _ H). reflexivity. Qed.
+
+  (** Stream::size_hint at HEAD is futures' default *)
+  Theorem stream_size_hint_default w :
+    wrap_step S E Item Data I current_code B w CStreamSizeHint = Ok (w, RHint (0, None)).
+  Proof. reflexivity. Qed.
+
+  (** poll_write_vectored / is_write_vectored at HEAD are tokio's defaults: the inner object's own
+      methods are never called; the count is still what the inner poll_write reported *)
+  Theorem poll_write_vectored_default w ds :
+    wrap_step S E Item Data I current_code B w (CPollWriteVectored ds) =
+    wrap_step S E Item Data I current_code B w (CPollWrite (first_nonempty Data B ds)).
+  Proof. reflexivity. Qed.
+
+  Theorem is_write_vectored_default w :
+    wrap_step S E Item Data I current_code B w CIsWriteVectored = Ok (w, RBool false).
+  Proof. reflexivity. Qed.
+
+  (** read_exact (interpretation I1, same in every variant): an Err counts 0 even when the inner
+      reader handed over bytes before failing ([d] is whatever reached the caller's buffer) *)
+  Theorem read_exact_err_counts_nothing s b n s' d e :
+    i_read_exact I s n = (s', (d, IoErr e)) ->
+    w_read_exact S E Item Data I (s, b) n = ((s', b), (d, IoErr e)).
+  Proof. intros H. unfold w_read_exact. rewrite H. reflexivity. Qed.
+End Current.
+
+(** Refutations of [meets_spec] for the current tree, one witness per class, on the harness's
+    scripted object (each witness is replayed on the implementation by the corpus of c17.rs). *)
+Definition sc_state (evs : list ev) : sstate := {| s_evs := evs; s_ctr := 0; s_sink := 0 |}.
+Definition finished_bar : bar :=
+  {| b_pos := 3; b_len := Some 10; b_status := DoneVisible; b_msg := []; b_on_finish := AndLeave |}.
+
+Theorem stream_size_hint_refuted :
+  exists s b, known_dev N N (list N) current_code b CStreamSizeHint
+                (snd (bare_step _ _ _ _ scripted s CStreamSizeHint)) = true
+    /\ ~ meets_spec _ _ _ _ scripted current_code sbuf s b CStreamSizeHint.
+Proof.
+  exists (sc_state [EvItem 1; EvItem 2]), (bar0 (Some 5) 0 AndLeave).
+  split; [reflexivity|]. unfold meets_spec. vm_compute. discriminate.
+Qed.
+
+Theorem stream_end_refuted :
+  exists s b, known_dev N N (list N) current_code b CPollNext
+                (snd (bare_step _ _ _ _ scripted s CPollNext)) = true
+    /\ ~ meets_spec _ _ _ _ scripted current_code sbuf s b CPollNext.
+Proof.
+  exists (sc_state [EvEnd]), finished_bar.
+  split; [reflexivity|]. unfold meets_spec. vm_compute. discriminate.
+Qed.
+
+Theorem poll_read_shrink_refuted :
+  exists s b, known_dev N N (list N) current_code b (CPollRead 2 8)
+                (snd (bare_step _ _ _ _ scripted s (CPollRead 2 8))) = true
+    /\ ~ meets_spec _ _ _ _ scripted current_code sbuf s b (CPollRead 2 8).
+Proof.
+  exists (sc_state [EvShrink 1]), (bar0 (Some 5) 0 AndLeave).
+  split; [reflexivity|]. unfold meets_spec. vm_compute. discriminate.
+Qed.
+
+Theorem async_write_vectored_refuted :
+  exists s b, known_dev N N (list N) current_code b (CPollWriteVectored [[1; 2]; [3; 4; 5]])
+                (snd (bare_step _ _ _ _ scripted s (CPollWriteVectored [[1; 2]; [3; 4; 5]]))) = true
+    /\ ~ meets_spec _ _ _ _ scripted current_code sbuf s b (CPollWriteVectored [[1; 2]; [3; 4; 5]]).
+Proof.
+  exists (sc_state [EvN 4]), (bar0 (Some 5) 0 AndLeave).
+  split; [reflexivity|]. unfold meets_spec. vm_compute. discriminate.
+Qed.
+
+Theorem is_write_vectored_refuted :
+  exists s b, known_dev N N (list N) current_code b CIsWriteVectored
+                (snd (bare_step _ _ _ _ scripted s CIsWriteVectored)) = true
+    /\ ~ meets_spec _ _ _ _ scripted current_code sbuf s b CIsWriteVectored.
+Proof.
+  exists (sc_state []), (bar0 (Some 5) 0 AndLeave).
+  split; [reflexivity|]. unfold meets_spec. vm_compute. discriminate.
+Qed.
 
 (** what finish_using_style leaves in the getters *)
 Theorem finish_using_style_spec b :
@@ -312,7 +525,7 @@ Proof.
   repeat split; assumption.
 Qed.
 
-(** the Stream oddity is observable: re-finishing a finished bar can move the position *)
+(** deviation D-b is observable through the getters: re-finishing a finished bar can move the position *)
 Theorem stream_refinish_observable :
   exists b, bar_is_finished b = true /\ b_pos (bar_finish_using_style b) <> b_pos b.
 Proof.
@@ -474,12 +687,6 @@ Section RayonCount.
   Variable it_next : It -> It * option Item.
   Variable it_next_back : It -> It * option Item.
 
-  Definition items_consumed (t : dtree Item) : nat :=
-    fold_right (fun items a => (length items + a)%nat) 0%nat (dleaves Item t).
-
-  Definition items_yielded (ls : list (It * list (option Item))) : nat :=
-    fold_right (fun l a => (count_some Item (snd l) + a)%nat) 0%nat ls.
-
   (** drive / drive_unindexed: every split tree, every schedule *)
   Theorem rayon_consumer_count (c : C) (t : dtree Item) (l : list N) (b : bar) :
     let w := drive_wrap Item C F R Res c_split_at c_split_off_left c_to_reducer c_into_folder
@@ -487,7 +694,7 @@ Section RayonCount.
     Interleave (snd w) l -> b_pos b < U64 ->
     fst w = drive_bare Item C F R Res c_split_at c_split_off_left c_to_reducer c_into_folder
                        f_consume f_complete r_reduce c t
-    /\ b_pos (bar_run_incs b l) = (b_pos b + N.of_nat (items_consumed t)) mod U64
+    /\ b_pos (bar_run_incs b l) = (b_pos b + N.of_nat (items_consumed Item t)) mod U64
     /\ same_but_pos b (bar_run_incs b l).
   Proof.
     cbn zeta. rewrite rayon_consumer_spec. cbn [fst snd]. intros HI Hb.
@@ -502,7 +709,7 @@ Section RayonCount.
     let bare := produce_bare Item P It p_split_at p_into_iter it_next it_next_back p t in
     Interleave (snd w) l -> b_pos b < U64 ->
     fst w = bare
-    /\ b_pos (bar_run_incs b l) = (b_pos b + N.of_nat (items_yielded bare)) mod U64
+    /\ b_pos (bar_run_incs b l) = (b_pos b + N.of_nat (items_yielded Item It bare)) mod U64
     /\ same_but_pos b (bar_run_incs b l).
   Proof.
     cbn zeta. rewrite rayon_producer_spec. cbn [fst snd]. intros HI Hb.
@@ -525,20 +732,3 @@ Proof.
   - apply (Interleave_cons [] x t ts). exact IHt.
 Qed.
 
-(** the oddities, stated for the record *)
-Section Oddities.
-  Variables S E Item Data : Type.
-  Variable I : inner S E Item Data.
-
-  (** read_exact: an Err counts 0 even when the inner reader handed over bytes before failing
-      ([d] is whatever reached the caller's buffer) *)
-  Theorem read_exact_err_counts_nothing s b n s' d e :
-    i_read_exact I s n = (s', (d, IoErr e)) ->
-    w_read_exact S E Item Data I (s, b) n = ((s', b), (d, IoErr e)).
-  Proof. intros H. unfold w_read_exact. rewrite H. reflexivity. Qed.
-
-  (** Stream::size_hint is not forwarded *)
-  Theorem stream_size_hint_default w :
-    wrap_step S E Item Data I w CStreamSizeHint = Ok (w, RHint (0, None)).
-  Proof. reflexivity. Qed.
-End Oddities.
